@@ -1,8 +1,8 @@
 CONSTANTS
   B = 4
-  MemSize = 9
-  PtrVals = {0,1,2,3}
-  DataInit <- DataSmall2
+  MemSize = 8
+  PtrVals = {0,1,2}
+  DataInit <- DataSmall
   MaxOps = 3
   Dev = "none"
   Gen = FALSE
